@@ -118,6 +118,7 @@ def gen_cfg_text(o):
     return """CONSTANTS
   Comp = %(Comp)s
   MaxDepth = %(MaxDepth)s
+  OpenFlags = {0, 1, 2, 5, 6, 8, 9, 10, 13, 17, 18, 26, 41, 42}
   BatchMembers <- MCBatch
   MaxTape = 400
   Chunks = %(Chunks)s
